@@ -332,8 +332,11 @@ def _apply_power_mapping(ufunc, in_unit, in_size, in_shape, input_kwarg_dict):
     # a repeated product which we implement as an exponent
     mul = 1
     power_map = POWER_MAPPING[ufunc]
-    if input_kwarg_dict.get("axis", None) is not None:
-        unit = in_unit ** (power_map(in_shape[input_kwarg_dict["axis"]]))
+    # ufunc.reduce reduces along axis 0 unless told otherwise; only an explicit
+    # axis=None combines every element of the array
+    axis = input_kwarg_dict.get("axis", 0)
+    if axis is not None:
+        unit = in_unit ** (power_map(in_shape[axis]))
     else:
         unit = in_unit ** (power_map(in_size))
     return mul, unit
